@@ -43,6 +43,7 @@ func TestVerif(t *testing.T) {
 }
 
 var registry = map[string]func(t *testing.T, c *Collector){
+	"C15": func(t *testing.T, c *Collector) { runC15(c) },
 	"C02": func(t *testing.T, c *Collector) {
 		c.res.Rule = "every sequence of <= depth ops with Close/reopen (snapshot kept / deleted / damaged / double Close) and GC cycles at every position (<= 2 reopens per history); at the end the directory image is forked and reopened through the snapshot and through a rescan and both must denote identical record lists and reads; non-trivial = history contains a reopen and ends with a non-empty store"
 		runSeqScenarios(c, c02Scenarios(c.job.Tier))
